@@ -52,19 +52,19 @@ def plant_canaries(ctx, beh_path):
             st = b["steps"]
             last = st[-1]
             if eq_c is None:
-                for i, row in enumerate(last["r"]):
+                for i, row in enumerate(last["r"][0]):
                     for j, t in enumerate(row):
                         if t.startswith("=") and eq_c is None:
                             c = json.loads(line)
-                            c["steps"][-1]["r"][i][j] = t + "#"
+                            c["steps"][-1]["r"][0][i][j] = t + "#"
                             eq_c = c
             if fr_c is None and len(st) >= 2:
-                prev = st[-2]["m"]
-                for i, row in enumerate(last["m"]):
+                prev = st[-2]["m"][0]
+                for i, row in enumerate(last["m"][0]):
                     for j, t in enumerate(row):
                         if t != prev[i][j] and fr_c is None:
                             c = json.loads(line)
-                            c["steps"][-1]["r"][i][j] = "~"
+                            c["steps"][-1]["r"][0][i][j] = "~"
                             fr_c = c
             if eq_c and fr_c:
                 break
@@ -106,50 +106,74 @@ def run(ctx):
         return
 
     # 0. vacuity guard on the model: the requirement layer must reject the mechanism falco had before the fixes
-    for leg in ('{"exact-keys"}', '{"empty-subfield"}'):
-        g = ctx.tlc("Headers", defines={"Alphabet": '"quick"', "MaxOps": "2", "Legacy": leg}, workers=2,
+    for leg in ('{"exact-keys"}', '{"empty-subfield"}', '{"add-unassigned"}'):
+        alpha = '"thorough"' if "add" in leg else '"quick"'
+        g = ctx.tlc("Headers", defines={"Alphabet": alpha, "Mode": '"cover"', "MaxOps": "2", "Legacy": leg}, workers=2,
                     expect_violation=True, timeout=300, tag="vacuity-guard " + leg)
         if not g.violated:
             raise MachineryFault("Headers.tla: the laws accept the legacy mechanism %s (requirement layer is vacuous)" % leg)
     ctx.states, ctx.transitions = 0, 0   # the guard runs are not evidence of exploration
 
-    # 1. model checking (mechanism |= requirement) + emission of every transition
-    runs = [("quick", 3)] if quick else [("thorough", 3), ("deep", 4)]
-    beh_files = []
-    for alpha, depth in runs:
-        m = ctx.tlc("Headers", defines={"Alphabet": '"%s"' % alpha, "MaxOps": str(depth), "Legacy": "{}"},
-                    timeout=2400, tag="laws+emit %s depth %d" % (alpha, depth))
+    # 1. model checking (mechanism |= requirement) + emission
+    #    cover: every (store, operation) transition of the large alphabets, shortest witness
+    #    seq:   every operation sequence of a small alphabet (reaches implementation states the abstract store
+    #           does not distinguish), one object, and five objects of one context ("multi")
+    #    walk:  seeded random walks over the large alphabet
+    if quick:
+        runs = [("cover", "quick", 3, None, "all"), ("seq", "small", 4, None, "sampled"), ("seq", "multi", 3, None, "multi")]
+    else:
+        runs = [("cover", "thorough", 3, None, "all"), ("cover", "deep", 4, None, "sampled"),
+                ("seq", "small12", 5, None, "sampled"), ("seq", "multi", 3, None, "multi"),
+                ("walk", "thorough", 8, 6000, "sampled")]
+    groups = {}
+    for mode, alpha, depth, sim, how in runs:
+        defs = {"Alphabet": '"%s"' % alpha, "Mode": '"%s"' % mode, "MaxOps": str(depth), "Legacy": "{}"}
+        if mode == "walk":
+            m = ctx.tlc("Headers", cfg="HeadersSeq.cfg", defines=defs, simulate=sim, depth=depth + 2, timeout=2400,
+                        tag="walk %s depth %d" % (alpha, depth))
+        else:
+            m = ctx.tlc("Headers", cfg=("Headers.cfg" if mode == "cover" else "HeadersSeq.cfg"), defines=defs,
+                        timeout=2400, tag="laws+emit %s %s depth %d" % (mode, alpha, depth))
         if m.violated:
             raise MachineryFault("Headers.tla: the mechanism layer violates %s on the model (a lead, not a verdict; see %s)"
                                  % (m.violated, m.out_path))
         if m.behaviours == 0:
-            raise MachineryFault("TLC emitted no behaviour")
-        beh_files.append(m.beh_path)
-        ctx.notes.setdefault("transitions_emitted", {})["%s/%d" % (alpha, depth)] = m.behaviours
-    allb = os.path.join(ctx.work, "all_beh.jsonl")
-    seen = set()
-    with open(allb, "w") as out:
-        for bf in beh_files:
-            for line in open(bf):
-                if line in seen:
-                    continue
-                seen.add(line)
-                out.write(line)
+            raise MachineryFault("TLC emitted no behaviour (%s %s)" % (mode, alpha))
+        groups.setdefault(how, []).append(m.beh_path)
+        ctx.notes.setdefault("behaviours_emitted", {})["%s/%s/%d" % (mode, alpha, depth)] = m.behaviours
+    files = {}
+    for how, bfs in groups.items():
+        files[how] = os.path.join(ctx.work, "beh_%s.jsonl" % how)
+        seen = set()
+        with open(files[how], "w") as out:
+            for bf in bfs:
+                for line in open(bf):
+                    h = hash(line)
+                    if h in seen:
+                        continue
+                    seen.add(h)
+                    out.write(line)
+    allb = files["all"]
     ctx.exhaustive = True
-    ctx.notes["exhaustive_scope"] = "every transition of the bounded store graph is replayed on every (object, scope, binding)"
+    ctx.notes["exhaustive_scope"] = ("cover/<large alphabet>/3: every transition on every (object, scope, binding); seq and deep "
+                                     "cover: every behaviour on req:recv and beresp:fetch, the 15 other pairs on every 8th "
+                                     "behaviour each (rotating); multi: every sequence in one context; walk: sampled")
 
     # 2. canaries
     plant_canaries(ctx, allb)
 
     # 3. replay on the real code
-    ress, total = replay(ctx, allb, "b")
-    nruns = 0
-    for rp in ress:
-        for r in ctx.read_results(rp):
-            nruns += (r.get("observed") or {}).get("runs", 0)
-            if not r.get("validated"):
-                ctx.notes["skipped_inexpressible"] = ctx.notes.get("skipped_inexpressible", 0) + 1
-            ctx.add_result(r)
+    nruns = total = 0
+    for how, path in files.items():
+        extra = {"all": None, "sampled": ["-every", "8"], "multi": None}[how]
+        ress, n = replay(ctx, path, "b" + how[0], extra=extra)
+        total += n
+        for rp in ress:
+            for r in ctx.read_results(rp):
+                nruns += (r.get("observed") or {}).get("runs", 0)
+                if not r.get("validated"):
+                    ctx.notes["skipped_inexpressible"] = ctx.notes.get("skipped_inexpressible", 0) + 1
+                ctx.add_result(r)
     ctx.notes["replay_runs"] = nruns
     ctx.notes["behaviours_replayed"] = total
     if nruns == 0:
